@@ -271,7 +271,7 @@ impl HCtx {
         let pending: std::cell::RefCell<Vec<Option<(Prepared, WebServer)>>> = std::cell::RefCell::new(
             preps.iter().zip(webs.into_iter()).map(|(prep, web)| Some((Prepared {
                 method: prep.method.clone(), uri: prep.uri.clone(), cid_bytes: prep.cid_bytes.clone(), ct_val: prep.ct_val.clone(),
-                chunks: prep.chunks.clone(), broken: prep.broken, http10: prep.http10, op_prefix: String::new(), route_class: String::new(), seg_class: String::new(), cid_class: String::new(), extra: prep.extra.clone(),
+                chunks: prep.chunks.clone(), broken: prep.broken, http10: prep.http10, op_prefix: String::new(), route_class: String::new(), seg_class: String::new(), cid_class: String::new(), extra: prep.extra.clone(), pause_ms: prep.pause_ms,
             }, web))).collect());
         let rt_notes: std::cell::RefCell<Vec<String>> = std::cell::RefCell::new(vec![]);
         let start = |tid: usize| {
